@@ -65,7 +65,7 @@ def fault_suite(ctx, kres):
     import concurrent.futures, collections, json
     from .. import crash
     setup, names = crash.scene()
-    scen = [s[0] for s in crash.scenarios(names) if not s[0].startswith("login") and s[0] != "logout"]
+    scen = [s[0] for s in crash.scenarios(names) if not s[0].startswith("login") and s[0] != "logout" and not s[0].startswith("read-") and s[0] not in ("search-all", "inittoken-free")]
     if ctx.quick: scen = [s for s in scen if s in FAULT_QUICK]
     kres["suites"] += 1
     def go(nm):
